@@ -42,8 +42,13 @@ Definition redact_hpu (h : option (userinfo * str * str)) : str :=
   | Some ((u, None), host, port) => u ++ [64] ++ host ++ [58] ++ show_port port
   end.
 
+(* the prefix test of the two sides: exact (strings.HasPrefix) or folding case (strings.EqualFold on the head) *)
+Definition prefix_test (fold : bool) (s p : str) : bool :=
+  if fold then eq_fold (firstn (length p) s) p else has_prefix s p.
 Definition redact_base64 (s : str) : str :=
-  if has_prefix s base64_prefix then (if redact_base64_hides_payload then base64_placeholder else s) else s.
+  if prefix_test redact_prefix_fold s base64_prefix then (if redact_base64_hides_payload then base64_placeholder else s) else s.
+(* readurl.go ReadFileOrBase64: which values are READ as inline data (everything else is a file name) *)
+Definition reader_accepts (s : str) : bool := prefix_test reader_prefix_fold s reader_data_prefix.
 
 (* url.URL{Scheme, User, Host}.String() / .Redacted() for the upstream proxy URL *)
 Definition userinfo_string (redacted : bool) (ui : userinfo) : str :=
@@ -133,7 +138,7 @@ Definition describe_plain (c : config) : str := flat_map (fun e => describe_entr
 Definition scrub_ui (u : userinfo) : userinfo := match u with (n, Some _) => (n, Some []) | (n, None) => (n, None) end.
 Definition scrub_hpu (h : userinfo * str * str) : userinfo * str * str :=
   match h with (u, host, port) => (scrub_ui u, host, port) end.
-Definition scrub_b64 (s : str) : str := if has_prefix s base64_prefix then base64_prefix else s.
+Definition scrub_b64 (s : str) : str := if prefix_test redact_prefix_fold s base64_prefix then base64_prefix else s.
 Definition scrub (v : value) : value :=
   match v with
   | VRaw s => VRaw s
